@@ -463,6 +463,59 @@ def run(tier, seed):
 
         push_pairing_rules(rep, ctx, mod, own, owning, lib_fns)
 
+        # ---- R7 no dangling owning field ------------------------------------------------------------------------------------------
+        # Releasing what an owning field holds and returning with the field still pointing there hands the next release of the owner
+        # (close_decoder, the object's free function, the next overwrite) a pointer that was already freed.
+        r7 = rep.rule("R7", "after a release of the value held by an owning field, the field is overwritten (NULL or a new owner) on every path to a return, "
+                            "unless the object that contains the field is itself released on that path", 8)
+        nrel = 0
+        for fn in lib_fns:
+            Mf = None
+            for c in fn.insts():
+                if c.op != "call" or mod.callee_cname(c) not in RELEASERS or not c.ops:
+                    continue
+                Mf = Mf or Matcher(fn)
+                Ff = ctx.facts(fn)
+                hits = []
+                for s_, _fs in Ff.sources(c.ops[0]):
+                    for (S, f) in owning:
+                        if (S, f) in LIST_LINKS:
+                            continue
+                        e = Mf.match(("load", ("field", S, f, ("bind", "obj"))), s_, {})
+                        if e is not None:
+                            hits.append((S, f, e["obj"], s_))
+                for S, f, obj, ld in hits:
+                    nrel += 1
+                    # edges after which the field has been rewritten, or the containing object released
+                    cut = set()
+                    objs = Mf.strip(obj, ("bitcast",))
+                    for st in stores_to_field(mod, S, f, [fn]):
+                        e2 = Mf.match(("field", S, f, ("bind", "o2")), st.ops[1], {})
+                        if e2 is not None and (Mf.strip(e2["o2"], ("bitcast",)) == objs or Mf.equiv(e2["o2"], obj)):
+                            if st.block.id == c.block.id and st.idx < c.idx:
+                                continue                    # a store before the release in the same block does not cover it
+                            cut |= {(st.block.id, x) for x in st.block.succs} | ({(st.block.id, "ret")} if not st.block.succs else set())
+                    for c2 in fn.insts():
+                        if c2.op == "call" and mod.callee_cname(c2) in RELEASERS and c2.ops and c2.id != c.id and \
+                                (Mf.strip(c2.ops[0], ("bitcast",)) == objs or Mf.equiv(c2.ops[0], obj)):
+                            cut |= {(c2.block.id, x) for x in c2.block.succs} | ({(c2.block.id, "ret")} if not c2.block.succs else set())
+                    same_block_after = any((b_, x) in cut for (b_, x) in cut if b_ == c.block.id) and any(
+                        (i.op == "store" or i.op == "call") and i.idx > c.idx and i.block.id == c.block.id and
+                        ((i.op == "store" and Mf.match(("field", S, f, ANY), i.ops[1], {}) is not None) or
+                         (i.op == "call" and mod.callee_cname(i) in RELEASERS and i.ops and Mf.strip(i.ops[0], ("bitcast",)) == objs)) for i in c.block.insts)
+                    bad = None
+                    if not same_block_after:
+                        for rt in rets(fn):
+                            if (rt.block.id, "ret") in cut and rt.block.id != c.block.id:
+                                continue
+                            if rt.block.id == c.block.id or Ff.reaches_avoiding(c.block.id, rt.block.id, cut, start_after=c):
+                                bad = rt
+                                break
+                    rep.check(r7, bad is None, "%s: %s.%s released by %s is rewritten (or its object released) before every return" % (fn.cname, S, f, mod.callee_cname(c)),
+                              c.where(), None if bad is None else "the return at line %s is reachable with %s.%s still holding the released pointer: the next release of it frees the block again" % (
+                                  bad.line(), S, f), function=fn.cname, obj="dangling-%s.%s" % (S, f))
+        rep.extra["field_release_sites"] = nrel
+
         # ---- R6 dropped failure status ------------------------------------------------------------------------------------------
         r6 = rep.rule("R6", "the status of a lib/ function that reports allocation failure by its return value is not dropped by its callers", 10)
         # functions that can fail because an allocation failed: return 0/NULL on an edge 'alloc == NULL'
